@@ -100,3 +100,36 @@ Proof.
   destruct H as (_ & Hc' & HR). cbn [fst] in Hk. destruct Hk as (Hn & Hd & Hf & Hs).
   apply roundtrip_of_refines; try assumption; [rewrite Hs; exact Hsc|rewrite Hs, Hf; exact Hrule].
 Qed.
+
+(* ---------- every channel the writer produces satisfies the reader's invariant (C08): the hypothesis
+   FilesInv of all reader-coherence theorems holds for the files after ANY public-API history *)
+Lemma InvU_FilesInv c st : vcfg c -> 0 < c_sc c -> (c_sc c * 1000) mod c_fc c = 0 ->
+  InvU c st -> ms_incr (map f_ms (all_files st)) ->
+  FilesInv (rc_of c) (map (to_rfile c) (all_files st)).
+Proof.
+  intros Hc Hsc Hrule [_ Hf Ho] Hso. destruct Hc as (Hn & Hd & Hfc & Hs0).
+  split; [|split].
+  - unfold cfg_ok. cbn [rn rd fcad scad rc_of]. auto.
+  - apply Forall_map. unfold all_files. apply Forall_app. split.
+    + eapply Forall_impl; [|exact Hf]. intros a (H & _). apply FWFu_file_ok; [repeat split; assumption|assumption|exact H].
+    + destruct (w_openf st) as [a|]; [|constructor]. constructor; [|constructor].
+      destruct Ho as (_ & H & _). apply FWFu_file_ok; [repeat split; assumption|assumption|exact H].
+  - apply ms_incr_sorted. exact Hso.
+Qed.
+
+Theorem api_files_reader_invariant c ops : vcfg c -> 0 < c_sc c -> (c_sc c * 1000) mod c_fc c = 0 ->
+  Forall api_arg_ok ops ->
+  (c_chunk c = true \/ c_cont c = true) ->
+  FilesInv (rc_of c) (map (to_rfile c) (all_files (p_w (fold_left (api_state c) ops py_init)))).
+Proof.
+  intros Hc Hsc Hrule Hops Hmode.
+  destruct (c_chunk c) eqn:Hch.
+  - destruct (c_cont c) eqn:Hco.
+    + destruct (api_history_continuous_chunked c ops Hc Hch Hco Hops) as (_ & (HI & _ & _ & Hso) & _).
+      apply Inv_FilesInv; assumption.
+    + destruct (api_history_gapped c ops Hc Hch Hco Hops) as (_ & (HI & _ & _ & Hso) & _).
+      apply Inv_FilesInv; assumption.
+  - destruct Hmode as [Hx|Hco]; [discriminate|].
+    destruct (api_history_continuous_unchunked c ops Hc Hch Hco Hops) as (_ & HR & _).
+    apply InvU_FilesInv; try assumption; [exact (ru_inv _ _ _ HR)|exact (ru_sorted _ _ _ HR)].
+Qed.
